@@ -36,6 +36,30 @@ Theorem C05_cross_mapping_no_maps : forall sch input sigs m,
 Proof. exact fields_mapping_cross_no_maps. Qed.
 Print Assumptions C05_cross_mapping_no_maps.
 
+(* every segment of a flattened key is the attribute name of its own field, hence no Python keyword, and the parameter
+   is still the leaf; so the emitted attribute paths parse (replaces C05_reserved_segment_refuted: /repo commit 318bb4b).
+   For proto-plus messages whose field names are plain identifiers; a keyword-named field of a plain protobuf message
+   on the path stays outside (C05_keyword_param_pb2_refuted). *)
+Theorem C05_reserved_segments_ok : forall sch input cross sigs m,
+  all_proto_plus sch -> m_proto_plus input = true -> msg_plain input = true ->
+  fields_mapping sch input cross sigs = Some m ->
+  (forall kf, In kf m -> exists ks pre,
+      fst kf = sjoin "." ks /\ segments (fst kf) = ks /\ Forall (fun s => is_kw s = false) ks /\
+      ks = (pre ++ [r_name (snd kf)])%list) /\
+  (forall v pp, keys_ok (emit v m cross pp) = true).
+Proof. exact reserved_segments_ok. Qed.
+Print Assumptions C05_reserved_segments_ok.
+
+Theorem C05_example_reserved_segment :
+  let input := mkMsg true [msgf "class" ".p.Inner"; scalar "name"] in
+  all_proto_plus ex_sch /\ m_proto_plus input = true /\ msg_plain input = true /\
+  exists m, fields_mapping ex_sch input false ["class.title, name"; "class.class"] = Some m /\
+            map fst m = ["class_.title"; "name"; "class_.class_"] /\ names m = ["title"; "name"; "class_"] /\
+            block_ok (emit Sync m false true) = true /\ block_ok (emit Async m false true) = true /\
+            (forall v, exec (emit v m false true) RNone [("title", LS "st")] = OSend (mkReq [("class_.title", LS "st")] ["class_"])).
+Proof. exact reserved_segment_example. Qed.
+Print Assumptions C05_example_reserved_segment.
+
 (* a request (dict or message) together with any flattened argument, whatever its value (0, "", False, an empty message
    included: only None counts as absent): ValueError, nothing is sent; sync and asyncio, same-package and cross-package *)
 Theorem C05_mixed_raises_before_send : forall v m cross pp ra kw,
@@ -119,12 +143,6 @@ Proof. exact falsy_values_count. Qed.
 Print Assumptions C05_example_falsy_values_count.
 
 (* ---- statements the faithful model violates (each witness is replayed on the implementation: corpus/C05) ---- *)
-Theorem C05_reserved_segment_refuted :
-  exists m, fields_mapping ex_sch (mkMsg true [msgf "class" ".p.Inner"]) false ["class.title"] = Some m /\
-            map fst m = ["class.title"] /\ keys_ok (emit Sync m false true) = false /\ keys_ok (emit Async m false true) = false.
-Proof. exact reserved_segment_refuted. Qed.
-Print Assumptions C05_reserved_segment_refuted.
-
 Theorem C05_control_name_refuted :
   exists m, fields_mapping ex_sch ex_req false ["name,retry"] = Some m /\
             sig_ok (emit Sync m false true) = false /\ sig_ok (emit Async m false true) = false.
